@@ -39,8 +39,10 @@ def one_exec(cfg, order, fail, abort_at):
     with World() as w:
         initial = files_of_trees(trees)[:1] if cfg["initial"] == "partial" else []
         src_missing = [MD5[c] for c in cfg.get("src_missing", [])]
+        corrupt = [MD5[c] for c in cfg.get("corrupt", [])]
         xw = XWorld(w, trees, dest_kind=cfg["dest"], use_index=cfg["index"], dest_initial=initial,
-                    src_missing=src_missing)
+                    src_missing=src_missing, verify=bool(corrupt), corrupt=corrupt)
+        xkw = {"verify": True} if corrupt else {}
         try:
             ids = xw.request(trees, closed=cfg["request"] == "closed")
             shallow = cfg["request"] == "closed"
@@ -55,7 +57,7 @@ def one_exec(cfg, order, fail, abort_at):
             plan = Plan(fail_oids=fail, abort_at=abort_at, on_event=on_event)
             result = None
             try:
-                result = xw.transfer(ids, plan=plan, order=order, shallow=shallow)
+                result = xw.transfer(ids, plan=plan, order=order, shallow=shallow, **xkw)
             except Abort:
                 info["aborted"] = True
             except Exception as e:  # noqa: BLE001
@@ -75,6 +77,8 @@ def one_exec(cfg, order, fail, abort_at):
             bad, snap = closure_violations(xw.dest.path)
             if bad:
                 kind = "shared" if any(m in sh for _o, ms in bad for m in ms) else "own"
+                if corrupt:
+                    kind += "-corrupt"
                 viol.append(
                     (
                         f"dir-object-present-without-listed-file/{kind}-file-failed/end",
@@ -89,6 +93,10 @@ def one_exec(cfg, order, fail, abort_at):
                         if TREE_OID[t] in snap:
                             pass  # already reported as closure violation
                         elif TREE_OID[t] not in failed:
+                            if set(miss) & set(corrupt):
+                                viol.append(("withheld-dir-not-reported-failed/corrupt-source-under-verify",
+                                             f"{t} failed={[name_of(f) for f in failed]}"))
+                                continue
                             why = "file-missing-on-both-sides" if set(miss) & set(src_missing) else "upload-failed"
                             viol.append(
                                 (
@@ -98,15 +106,16 @@ def one_exec(cfg, order, fail, abort_at):
                             )
             # fault-free retry of the same request with the same index
             try:
-                xw.transfer(ids, plan=Plan(), order=order, shallow=shallow)
+                xw.transfer(ids, plan=Plan(), order=order, shallow=shallow, **xkw)
             except Exception as e:  # noqa: BLE001
                 viol.append((f"retry-raises-{type(e).__name__}", repr(e)))
             bad2, snap2 = closure_violations(xw.dest.path)
             want = set(files_of_trees(trees)) | {TREE_OID[t] for t in trees}
-            if src_missing:
-                # what cannot be delivered at all: the missing files and every directory listing one
-                want -= set(src_missing)
-                want -= {TREE_OID[t] for t in trees if set(LISTING[t].values()) & set(src_missing)}
+            undeliverable = set(src_missing) | set(corrupt)
+            if undeliverable:
+                # what cannot be delivered at all: missing / corrupt files and every directory listing one
+                want -= undeliverable
+                want -= {TREE_OID[t] for t in trees if set(LISTING[t].values()) & undeliverable}
             if want - set(snap2) or bad2:
                 viol.append(
                     (
@@ -276,7 +285,7 @@ def run_case(case):
                if o not in initial and o not in gone]
     sh = shared_files(trees)
     nevents = None
-    for fail in subsets(uploads):
+    for fail in (subsets(uploads) if not cfg.get("corrupt") else [()]):
         viol, info = one_exec(cfg, order, list(fail), None)
         if not fail:
             nevents = info["events"]
@@ -295,7 +304,7 @@ def run_case(case):
             if sig not in sigs:
                 sigs.add(sig)
                 res["viol"].append((sig, detail, {"cfg": cfg, "order": order, "fail": list(fail), "abort_at": None}))
-    for k in range(nevents or 0):
+    for k in range((nevents or 0) if not cfg.get("corrupt") else 0):
         viol, info = one_exec(cfg, order, [], k)
         res["n"] += 1
         res["trans"] += info["events"] + 2
@@ -335,6 +344,13 @@ def configs(tier):
                     for initial in ("empty", "partial"):
                         yield {"scenario": s, "dest": dest, "index": index, "request": request,
                                "initial": initial}
+    # verify=True with corrupt (mismatching) source files: they must never complete a directory
+    for s, bad in (("sharing", ["x"]), ("sharing", ["y"]), ("three", ["x"]), ("three", ["y", "z"]),
+                   ("twopaths", ["w"]), ("subset", ["x"])):
+        for dest in ("base", "local"):
+            for index in (False, True):
+                yield {"scenario": s, "dest": dest, "index": index, "request": "closed",
+                       "initial": "empty", "corrupt": bad}
     # a listed file is missing from the source as well (cannot be delivered at all)
     for s, gone in (("one", ["y"]), ("sharing", ["y"]), ("sharing", ["x"]), ("three", ["z"])):
         for dest in ("base", "local"):
